@@ -5,6 +5,7 @@ import os
 from core import Property, Stream, enc, dec, enc_list, dec_list
 import annotcorr
 import annotgen as G
+import annot_e2e
 
 
 # --------------------------------------------------------------------------
@@ -546,10 +547,13 @@ class NewHeaderStream(Stream):
 PROPERTY = Property(
     pid="C07",
     streams=[annotcorr.CreateCommentStream(), annotcorr.CommentAtStream(), NewHeaderStream(), AchievableTieStream(), AnnotateReadbackStream(), FileTieStream(), StyleOfStream(),
-             EndToEndStream(), TreeStream()],
+             EndToEndStream(), TreeStream(), annot_e2e.AnnotateE2EStream()],
     assumptions=[
         "Jinja2 is outside the model: the template is an arbitrary function in the theorems; in the correspondence the model receives "
         "the text real Jinja rendered for the information the model computed",
         "license-expression is an oracle parameter (`parses`, `normLic`) of the model; expressions are compared as the parser renders them",
+        "stream annotate-e2e (shared with C11): the composed model Model/AnnotateE2E.lean — command-level state machine + text level + style "
+        "tables + covered-files walk — against the real CLI, bytes of every changed file; there `normLic` is the real "
+        "`str(_LICENSING.parse(x))` and the template is rendered by real Jinja for the lists the model asks for",
     ],
 )
